@@ -7,7 +7,8 @@
    given (first occurrence of every non-zero id), sorted by id. *)
 From Coq Require Import List NArith ZArith Bool String.
 From GoGit Require Import Base.Out Base.GoInt Model.PackBytes Model.Idx Spec.IdxFormat
-  Proofs.C10Basic Proofs.C10Order Proofs.C10Layout Proofs.C10Lazy Proofs.C10Main.
+  Proofs.C10Basic Proofs.C10Order Proofs.C10Table Proofs.C10Layout Proofs.C10Lazy Proofs.C10Main
+  Proofs.C10Decode Proofs.C10Memory Proofs.C10Mmap.
 Import ListNotations.
 Local Open Scope N_scope.
 
@@ -50,6 +51,92 @@ Proof.
   split; [exact (lazy_find_offset_map hs H tbl pack rev WF Hp Hr h Hh)|exact (lazy_find_crc_map hs H tbl pack rev WF Hp Hr h Hh)].
 Qed.
 Print Assumptions C10_lazy_lookup_is_map.
+
+(* ---- C10_roundtrip: the index go-git writes decodes back.  Decoder.Decode accepts the written
+   bytes and builds the bucketed MemoryIndex of the table ([spec_index]), provided the digest has
+   the id size, hs <= 64 and — git's size bound, also enforced by go-git — not every offset needs
+   the 64-bit table (a pack's first object is at offset 12) ---- *)
+Theorem C10_roundtrip : forall hs Hsz es pack,
+  wf_entries hs es = true -> List.length pack = hs -> (hs <= 64)%nat ->
+  (forall b, List.length (Hsz hs b) = hs) ->
+  (N.of_nat (List.length (table es)) = 0 \/ n_big (table es) + 1 <= N.of_nat (List.length (table es))) ->
+  exists m bytes_, create_index hs (writer_add es [] []) pack = Ok m /\ encode hs Hsz m = Ok bytes_ /\
+    decode hs Hsz bytes_ = Ok (spec_index (table es) pack (S_SUM (Hsz hs) (table es) pack)).
+Proof.
+  intros hs Hsz es pack W Hp Hh Hd Hb.
+  destruct (written_idx_is_git_layout hs Hsz es pack W) as (m & Ec & Ee).
+  exists m, (idx_file (Hsz hs) (table es) pack). split; [exact Ec|]. split; [exact Ee|].
+  exact (decode_layout hs Hsz (table es) pack (wf_entries_tbl hs es W) Hp Hh Hd Hb).
+Qed.
+Print Assumptions C10_roundtrip.
+
+(* ---- C10_lookup_is_map, MemoryIndex (as decoded): Contains / FindOffset (for every state of
+   its offset cache) / FindCRC32 / Entries / EntriesByOffset / Count answer like the map ---- *)
+Theorem C10_memory_lookup_is_map : forall hs (Hsz : nat -> bytes -> bytes) es pack sum,
+  wf_entries hs es = true -> List.length pack = hs ->
+  let tbl := table es in
+  let m := spec_index tbl pack sum in
+  (forall h, wf_hash hs h ->
+     mem_contains hs m h = Ok (match lookup tbl h with Some _ => true | None => false end) /\
+     (forall st, fst (mem_find_offset hs m st h)
+                 = match lookup tbl h with Some e => Ok (to_i64 (e_off e)) | None => Err ENotFound end) /\
+     mem_find_crc hs m h = match lookup tbl h with Some e => Ok (e_crc e) | None => Err ENotFound end) /\
+  mem_entries hs m = (tbl, None) /\
+  mem_by_offset hs m = (sort_by_off tbl, None) /\
+  mem_count m = N.of_nat (List.length tbl).
+Proof.
+  intros hs Hsz es pack sum W Hp tbl m.
+  pose proof (wf_entries_tbl hs es W) as WF.
+  split; [|split; [exact (mem_entries_map hs Hsz tbl pack sum WF Hp)|
+           split; [exact (mem_by_offset_map hs Hsz tbl pack sum WF Hp)|exact (mem_count_map hs Hsz tbl pack sum WF Hp)]]].
+  intros h Hh. split; [exact (mem_contains_map hs Hsz tbl pack sum WF Hp h Hh)|].
+  split; [intros st; exact (mem_find_offset_map hs Hsz tbl pack sum WF Hp st h Hh)|
+          exact (mem_find_crc_map hs Hsz tbl pack sum WF Hp h Hh)].
+Qed.
+Print Assumptions C10_memory_lookup_is_map.
+
+(* ---- C10_lookup_is_map, mmap.PackScanner: loaded on the written idx, FindOffset answers like the map ---- *)
+Theorem C10_mmap_lookup_is_map : forall hs H es pack rev,
+  wf_entries hs es = true -> List.length pack = hs -> (20 <= hs)%nat ->
+  (forall b, List.length (H b) = hs) ->
+  (exists hf t, rev = ([82; 73; 68; 88] ++ be32 1 ++ hf) ++ t /\ List.length hf = 4%nat) -> 16 <= blen rev ->
+  let tbl := table es in
+  let S := the_scanner hs H tbl pack rev in
+  scan_load hs (idx_file H tbl pack) rev = Ok S /\
+  forall h, wf_hash hs h ->
+    scan_find_offset S h = match lookup tbl h with Some e => Ok (e_off e) | None => Err ENotFound end.
+Proof.
+  intros hs H es pack rev W Hp H20 Hd Hr H16 tbl S.
+  pose proof (wf_entries_tbl hs es W) as WF.
+  assert (Hsum : blen (S_SUM H tbl pack) = N.of_nat hs) by (unfold S_SUM, blen; now rewrite Hd).
+  split; [exact (scan_load_ok hs H tbl pack rev WF Hp Hr H16 H20 Hsum)|].
+  intros h Hh. exact (scan_find_offset_map hs H tbl pack rev WF Hp Hr H16 H20 Hsum h Hh).
+Qed.
+Print Assumptions C10_mmap_lookup_is_map.
+
+(* ---- C10_impls_equal: on the index go-git writes, the three readers give the same FindOffset
+   answer for every well-formed id (uint64 for the scanner, int64 for the other two) ---- *)
+Theorem C10_impls_equal : forall hs H (Hsz : nat -> bytes -> bytes) es pack rev sum st h,
+  wf_entries hs es = true -> List.length pack = hs -> (20 <= hs)%nat ->
+  (forall b, List.length (H b) = hs) ->
+  (exists hf t, rev = ([82; 73; 68; 88] ++ be32 1 ++ hf) ++ t /\ List.length hf = 4%nat) -> 16 <= blen rev ->
+  wf_hash hs h ->
+  let tbl := table es in
+  fst (mem_find_offset hs (spec_index tbl pack sum) st h) = lazy_find_offset hs (the_lazy hs H tbl pack rev) h /\
+  match scan_find_offset (the_scanner hs H tbl pack rev) h with
+  | Ok o => lazy_find_offset hs (the_lazy hs H tbl pack rev) h = Ok (to_i64 o)
+  | Err e => lazy_find_offset hs (the_lazy hs H tbl pack rev) h = Err e
+  end.
+Proof.
+  intros hs H Hsz es pack rev sum st h W Hp H20 Hd Hr H16 Hh tbl.
+  pose proof (wf_entries_tbl hs es W) as WF.
+  assert (Hsum : blen (S_SUM H tbl pack) = N.of_nat hs) by (unfold S_SUM, blen; now rewrite Hd).
+  rewrite (mem_find_offset_map hs Hsz tbl pack sum WF Hp st h Hh).
+  rewrite (lazy_find_offset_map hs H tbl pack rev WF Hp Hr h Hh).
+  rewrite (scan_find_offset_map hs H tbl pack rev WF Hp Hr H16 H20 Hsum h Hh).
+  split; [reflexivity|]. destruct (lookup tbl h); reflexivity.
+Qed.
+Print Assumptions C10_impls_equal.
 
 (* ---- C10_reject: malformed files are rejected by Decoder.Decode ---- *)
 Theorem C10_reject_magic : forall hs Hsz file,
